@@ -126,6 +126,41 @@ fn directed_reorg(w: &mut World, rng: &mut Rng, nonce: u64, with_twin: bool) -> 
     w.reorg(back, &contents, nonce).map(Some)
 }
 
+/// Directed scenario: one cell is a cell DEP of a pooled transaction and an INPUT of another pooled transaction; then the
+/// chain commits a third transaction spending that cell (proposed, and `w_close` blocks later committed, on the main
+/// chain).  Both pooled transactions have to leave: the spender as a conflict, the other one because its dep is dead.
+fn directed_dep_and_spend(w: &mut World, rng: &mut Rng, nonce: u64) -> Result<bool, String> {
+    let sp = w.spendable();
+    // the shared cell has to be live ON THE CHAIN (the third spender is committed by a block)
+    let on_chain: Vec<usize> = {
+        use ckb_store::ChainStore;
+        let snap = w.node.shared.snapshot();
+        sp.iter().copied().filter(|o| snap.get_cell(&w.outs[*o].op).is_some()).collect()
+    };
+    if sp.len() < 2 || on_chain.is_empty() {
+        return Ok(false);
+    }
+    let x = on_chain[rng.below(on_chain.len() as u64) as usize];
+    let Some(&other) = sp.iter().find(|o| **o != x) else { return Ok(false) };
+    let Some(b) = w.new_tx(&[other], &[x], &[], 1, rng.range(900, 4000), rng) else { return Ok(false) };
+    if w.submit(b).is_err() {
+        return Ok(false);
+    }
+    let Some(a) = w.new_tx(&[x], &[], &[], 1, rng.range(900, 4000), rng) else { return Ok(false) };
+    if w.submit(a).is_err() {
+        return Ok(false);
+    }
+    let Some(t) = twin_of(w, a, rng) else { return Ok(false) };
+    if w.attach(&[t], &[], nonce).is_err() {
+        return Ok(false);
+    }
+    for k in 1..w.scn.window.0 {
+        w.attach(&[], &[], nonce + k)?;
+    }
+    w.attach(&[], &[t], nonce + 50)?;
+    Ok(true)
+}
+
 pub fn reorg_history(args: &[String], probes: bool) -> Value {
     let seed = opt_u64(args, "--seed", 1);
     let steps = opt_u64(args, "--steps", 100);
@@ -139,6 +174,7 @@ pub fn reorg_history(args: &[String], probes: bool) -> Value {
     let (mut n_reorg, mut n_detached, mut n_blocks, mut n_accept, mut n_reject, mut n_conc, mut n_commit_side, mut n_directed) = (0u64, 0u64, 0u64, 0u64, 0u64, 0u64, 0u64, 0u64);
     let mut err: Option<String> = None;
     let mut n_resubmit = 0u64;
+    let mut n_dep_spend = 0u64;
     // twins created for transactions that went to the main chain: candidates to be committed on a side branch
     let mut twins: Vec<usize> = vec![];
     if pr == 5 || pr == 6 || pr == 7 {
@@ -193,7 +229,13 @@ pub fn reorg_history(args: &[String], probes: bool) -> Value {
                 }
                 return Ok(());
             }
-            if (pr == 5 || pr == 6) && rng.chance(1, 5) {
+            if pr >= 5 && pr <= 7 && rng.chance(1, 5) {
+                // tight limits: keep the chain moving so that the backlog is proposed and committed
+                w.mine()?;
+                n_blocks += 1;
+                return Ok(());
+            }
+            if (pr == 5 || pr == 6) && rng.chance(1, 4) {
                 // directed (tight limits): an entry of stage Proposed leaves and comes back - it re-enters directly at stage
                 // Proposed, which reaches the assembler through `update_transactions` (the incremental path: template kept,
                 // transactions re-packaged next to the uncles and proposals already chosen)
@@ -204,9 +246,20 @@ pub fn reorg_history(args: &[String], probes: bool) -> Value {
                         let _ = w.submit(t);
                         n_resubmit += 1;
                         w.probe_template("after-resubmit-proposed", true);
+                        // the assembler is told asynchronously: look again once it had time to re-package
+                        std::thread::sleep(std::time::Duration::from_millis(150));
+                        w.probe_template("after-resubmit-proposed", true);
                     }
                     return Ok(());
                 }
+            }
+            if pr <= 4 && rng.chance(1, 14) {
+                nonce += 100;
+                if directed_dep_and_spend(&mut w, &mut rng, nonce * 17)? {
+                    n_dep_spend += 1;
+                    n_blocks += 1 + w.scn.window.0;
+                }
+                return Ok(());
             }
             if r < 40 {
                 if let Some(t) = random_tx(&mut w, &mut rng, false) {
@@ -333,7 +386,7 @@ pub fn reorg_history(args: &[String], probes: bool) -> Value {
     let mut doc = w.finish_json();
     doc["summary"] = json!({"seed": seed, "profile": pr, "mine": scn.mine, "steps": steps, "events": w.events.len(), "txs": w.txs.len(), "accepted": n_accept,
         "rejected": n_reject, "blocks": n_blocks, "reorgs": n_reorg, "detached_blocks": n_detached, "concurrent_submits": n_conc,
-        "side_branches_with_commits": n_commit_side, "directed_reorgs": n_directed, "resubmitted_proposed": n_resubmit, "templates": w.n_templates, "boundary_templates": w.n_boundary_templates, "error": err});
+        "side_branches_with_commits": n_commit_side, "directed_reorgs": n_directed, "resubmitted_proposed": n_resubmit, "dep_and_spend_committed": n_dep_spend, "templates": w.n_templates, "boundary_templates": w.n_boundary_templates, "error": err});
     w.dispose();
     doc
 }
